@@ -45,6 +45,7 @@
 (*   offer u f d v             PeerTransferRequest seen by the peer        *)
 (*   bytes u f d v n           file content written on a file connection   *)
 (*   abort / pause u f d v     TransferManager.abort / pause called        *)
+(*   rmcall / removed u f d v  TransferManager.remove called / TransferRemovedEvent seen *)
 (*   env what                  the peer accepted / finished / refused      *)
 (*   quiescent ups             [u f d v st reason] of every upload record  *)
 (***************************************************************************)
@@ -136,7 +137,7 @@ StepMarks ==
             THEN {"upload-requeued:unentitled:" \o up[t].st \o StepClass(t)} ELSE {})
     \cup (IF up[t].st = "QUEUED" /\ up'[t].st = "INITIALIZING" /\ ~UploadStep(t)
             THEN {"upload-started:unentitled" \o StepClass(t)} ELSE {})
-    \cup (IF up[t].st = "ABORTED" /\ up[t].reason = "Requested" /\ up'[t] # up[t]
+    \cup (IF up[t].st = "ABORTED" /\ up[t].reason = "Requested" /\ up'[t] # up[t] /\ up'[t].st # "NONE"
             THEN {"user-abort:" \o (IF up'[t].st = "ABORTED" THEN "reason-rewritten" ELSE "left-ABORTED-to-" \o up'[t].st)}
             ELSE {})
     : t \in T }
@@ -251,14 +252,23 @@ TState ==
                      ELSE {"state-listener:old-state-not-the-last-reported"})
        ELSE UNCHANGED up /\ Judge({})
 
-\* TransferManager.abort was called for the record (it takes effect if an abort is possible)
+\* TransferManager.abort - or remove, which aborts first - was called for the record (the abort takes
+\* effect if one is possible)
 TAbortCall ==
-  /\ IsEv("abort")
+  /\ IsEv("abort") \/ IsEv("rmcall")
   /\ obs' = NoObs
   /\ Keep /\ KeepUsr /\ Acc /\ UNCHANGED flag
   /\ IF Known(Rec)
        THEN up' = [up EXCEPT ![Key(Rec)].ua = @ \/ up[Key(Rec)].st \in {"QUEUED", "INITIALIZING", "UPLOADING", "PAUSED"}]
        ELSE UNCHANGED up
+  /\ Judge({})
+
+\* TransferRemovedEvent: the record is no longer in the list of transfers
+TRemoved ==
+  /\ IsEv("removed")
+  /\ obs' = NoObs
+  /\ Keep /\ KeepUsr /\ Acc /\ UNCHANGED flag
+  /\ IF Known(Rec) THEN up' = [up EXCEPT ![Key(Rec)] = NoUp] ELSE UNCHANGED up
   /\ Judge({})
 
 \* a call of the public API raised: an observation
@@ -328,7 +338,7 @@ Finished == l = Len(Tr) + 2 /\ UNCHANGED tvars
 TNext ==
   \/ TSetMode \/ TSetUsers \/ TAdd \/ TRemove \/ TScan \/ TScanDir \/ TFriend \/ TBlock \/ TExcluded
   \/ TTick \/ TListing \/ TChangeBegins \/ TMarker \/ TCreated \/ TState \/ TAbortCall \/ TReply \/ TOffer \/ TBytes
-  \/ TQuiescent \/ TError \/ Done \/ Finished
+  \/ TQuiescent \/ TRemoved \/ TError \/ Done \/ Finished
 
 TSpec == TInit /\ [][TNext]_tvars
 
